@@ -52,6 +52,9 @@ class Run:
     def analysed(self, f):
         self.functions.add(f.qn)
         self.units.add(f.tu)
+        if not hasattr(self, "files"):
+            self.files = set()
+        self.files.add(f.file)
 
     def assume(self, text):
         if text not in self.assumptions:
